@@ -671,7 +671,7 @@ def continued_literal(ctx):
 # ---------------------------------------------------------------------------------------
 # O7: the text of a character literal comes out of reader AND parser verbatim, however the statement holding it is laid out
 # ---------------------------------------------------------------------------------------
-V_LITS = ["'(a,i0)'", "\";,&!\"", "'a,b'", "'it''s, really'", "\"say \"\"hi\"\", twice\"", "'x = \"1\", y'", "'! , ;'", "'plain'", "'a &'"]
+V_LITS = ["'(a,i0)'", "\";,&!\"", "'a,b'", "'it''s, really'", "\"say \"\"hi\"\", twice\"", "'x = \"1\", y'", "'! , ;'", "'plain'", "'a &'", "'Usage:  prog [options]'", "'ab   cd'"]
 V_LAYOUTS = [
     ("one line", lambda L: ["character(len=*), parameter :: s = " + L]),
     ("after another statement on the line", lambda L: ["integer :: n = 1; character(len=*), parameter :: s = " + L]),
@@ -680,6 +680,9 @@ V_LAYOUTS = [
     ("with a trailing comment", lambda L: ["character(len=*), parameter :: s = " + L + " ! a comment, with a comma"]),
     ("second of two entities", lambda L: ["character(len=*), parameter :: t = 'first,one', s = " + L]),
     ("literal broken in the middle", lambda L: ["character(len=*), parameter :: s = " + L[:3] + "&", "      &" + L[3:]]),
+    # the literal resumes directly after the leading &: blanks that follow it belong to the literal
+    ("literal broken in front of its blanks", lambda L: ["character(len=*), parameter :: s = " + L[:L.index(" ")] + "&", "      &" + L[L.index(" "):]]
+     if " " in L[1:-1] else ["character(len=*), parameter :: s = " + L, "! filler"]),
 ]
 
 
@@ -726,7 +729,7 @@ def verbatim(ctx):
         lit = _CV6.choice(E, "literal", V_LITS)
         lay = _CV6.choice(E, "layout", [l[0] for l in V_LAYOUTS]).concretize()   # the number of physical lines depends on the layout
         # a literal shorter than the break point or ending in & cannot be broken in the middle / `'a &'` would read as a continuation
-        E.assume(_choice6.apply(lambda l: not (lay == "literal broken in the middle" and (len(l) < 6 or "&" in l)), lit))
+        E.assume(_choice6.apply(lambda l: not (lay.startswith("literal broken") and (len(l) < 6 or "&" in l)), lit))
         E.e.snapshot = lambda m: {"literal": _choice6.value_in_model(m, lit), "layout": lay}
         n = len(dict(V_LAYOUTS)[lay]("'xxxxxxxx'"))
         body = [_choice6.apply(lambda l, i=i: dict(V_LAYOUTS)[lay](l)[i], lit) for i in range(n)]
